@@ -141,7 +141,21 @@ def run_c19_dynamic(tier, seed):
     outs = {}
     for label, b in (("module", binary), ("component", comp)):
         outdir = os.path.join(M.WORK, "C19-%s-%s" % (tier, label))
-        res = M.run_shards(b, "C19", tier, seed, outdir)
+        try:
+            res = M.run_shards(b, "C19", tier, seed, outdir)
+        except M.HarnessError as e:
+            if label == "component" and "module" in outs:
+                # the module build ran the same histories fine: the component build of the same
+                # programs crashing is a disagreement between the two builds, not a harness problem
+                os.makedirs(M.REPLAYS, exist_ok=True)
+                path = os.path.join(M.REPLAYS, "C19-dynamic-crash.json")
+                v = {"engine": "modelsim", "property": "C19", "class": "component-build-crashes",
+                     "message": "the simulator linked against the component build dies on histories that the module build of the same programs runs: %s" % str(e).splitlines()[1:3],
+                     "seed": seed, "case": {"kind": "c19-dynamic-crash"},
+                     "replay": "re-run ./check C19 %s" % tier, "no_replay": True, "replay_path": path, "log_hash": ""}
+                json.dump(v, open(path, "w"), indent=1)
+                return outs["module"][0], outs["module"][1], [v], {"dynamic_half": {"status": "component binary crashed"}}
+            raise
         hashes = {}
         for i in range(M.NSHARDS):
             hp = os.path.join(outdir, "shard-%d.hashes.json" % i)
@@ -167,6 +181,15 @@ def run_c19_dynamic(tier, seed):
     cov = {"dynamic_half": {"programs_in_both_builds": len(set(k.split("#")[0] for k in common)), "histories_compared": len(common),
                             "histories_with_differences": len(diffs)}}
     return outs["component"][0], outs["component"][1], viol, cov
+
+
+def limit_memory():
+    """Address-space limit for a worker: a run-away close (possible on a changed tree: the budgets
+    are only consulted when close_until polls) ends as an allocation failure, not as a machine-wide
+    memory exhaustion."""
+    import resource
+    lim = 6 * 1024 * 1024 * 1024
+    resource.setrlimit(resource.RLIMIT_AS, (lim, lim))
 
 
 def shard_env(i, prop):
@@ -200,21 +223,48 @@ def run_shards(prop, tier, seed, suffix="", nshards=None, extra_args=()):
         if prop == "C20" and setarch and i % 2 == 1:
             cmd = [setarch, os.uname().machine, "-R"] + cmd
         out = open(os.path.join(outdir, "shard-%d.stdout" % i), "w")
-        procs.append((i, subprocess.Popen(cmd, stdout=out, stderr=subprocess.STDOUT, env=shard_env(i, prop), cwd=outdir), out))
+        procs.append((i, subprocess.Popen(cmd, stdout=out, stderr=subprocess.STDOUT, env=shard_env(i, prop), cwd=outdir,
+                                          preexec_fn=limit_memory), out))
     results, bad = [], []
+    deadline = time.time() + float(os.environ.get("VERIF_SHARD_TIMEOUT", "3000"))
     for i, p, out in procs:
-        rc = p.wait()
+        try:
+            rc = p.wait(timeout=max(1.0, deadline - time.time()))
+        except subprocess.TimeoutExpired:
+            p.kill()
+            p.wait()
+            rc = "timeout"
         out.close()
         path = os.path.join(outdir, "shard-%d.json" % i)
         if rc != 0 or not os.path.exists(path):
             tail = open(os.path.join(outdir, "shard-%d.stdout" % i), errors="replace").read()[-3000:]
             bad.append("shard %d exited %s\n%s" % (i, rc, tail))
+            # a worker writes its findings as soon as it has them: what it found before it died counts
+            if os.path.exists(path):
+                try:
+                    partial = json.load(open(path))
+                    if partial.get("violations"):
+                        results.append(partial)
+                except ValueError:
+                    pass
             continue
         results.append(json.load(open(path)))
     if bad:
-        raise M.HarnessError("worker failure:\n" + "\n".join(bad))
-    extra_cov = {"corpus": {"generator_seed": GEN_SEED, "programs": results[0].get("counters", {}).get("programs"),
-                            "dropped_uncompilable": excluded}}
+        # a worker that died (allocation failure, time limit) is a harness error -- unless other
+        # workers hold replay-confirmable violations, which are reported (each is re-executed in a
+        # fresh process before it counts); the dead workers are then mentioned as diagnostics
+        if not any(r.get("violations") for r in results):
+            raise M.HarnessError("worker failure:\n" + "\n".join(bad))
+        for b in bad:
+            M.log("[warn] " + b.splitlines()[0] + " (violations from the other workers are reported)")
+    rejected = []
+    diag = os.path.join(corpus_dir(tier), "diagnostics.txt")
+    if os.path.exists(diag):
+        rejected = [l.strip() for l in open(diag) if l.startswith("rejected")]
+    extra_cov = {"corpus": {"generator_seed": GEN_SEED, "programs": results[0].get("counters", {}).get("programs") if results else None,
+                            "dropped_uncompilable": excluded,
+                            "generated_programs_rejected_by_the_compiler": len(rejected),
+                            "of_which_tempting_surjectivity_violations": len([r for r in rejected if "does not appear earlier" in r])}}
     extra_viol = []
     if prop == "C20":
         seen = {}
